@@ -57,6 +57,33 @@ def free_cases(ctx, count, big):
     return out
 
 
+def big_cases(ctx, count):
+    """trees whose coordinates and radii have large magnitudes (3*10^4 .. the largest float32), exact limb representation"""
+    rng = ctx.rng
+    out = []
+    special = [3.0e4, 65536.0, 99999.99, 1.0e7, 12345678.0, 16777216.0, 16777217.0, 1.0e10, 2.0 ** 40, 1.0e15, 123456789012345678.0, 1.0e22, 1.0e30,
+               3.4028234663852886e38, 2.0 ** 100, 99999.5, 131071.99, 262143.98, 1048575.9, 8388607.5, 4194303.75]
+    for k in range(count):
+        n = rng.randint(1, 6)
+        P = [-1] + [rng.randrange(0, i) for i in range(1, n)]
+        fv = []
+        for i in range(n):
+            row = []
+            for j in range(4):
+                if rng.random() < 0.35:
+                    v = rng.choice(special)
+                else:
+                    v = 10 ** rng.uniform(4.5, 38.4)
+                v = float(np.float32(v))
+                if j < 3 and rng.random() < 0.5:
+                    v = -v
+                row.append(v)
+            fv.append(row)
+        out.append({"op": "roundtrip_big", "t": {"P": P, "ty": [rng.randrange(0, 8) for _ in range(n)], "v": [[swcio.bigval(x) for x in row] for row in fv], "com": []},
+                    "fvals": fv, "off": rng.choice([0, 1, 7]), "kind": rng.randrange(3)})
+    return out
+
+
 def run(ctx):
     cases, path = ctx.gen("Gen_SwcIO", "Gen_SwcIO.%s.cfg" % ctx.tier)       # its ASSUME checks the specification-level round trip on every case
     rts = [c for c in cases if c["op"] == "roundtrip"]
@@ -65,12 +92,17 @@ def run(ctx):
         fc = free_cases(ctx, 150 if ctx.tier == "quick" else 3000, [2000] if ctx.tier == "quick" else [5000, 20000])
         p = ctx.write_cases("free", fc)
         ctx.run_cases("free", fc, p, swcio.execute, "Judge_SwcIO", keyfn, nontrivial, per_case_timeout=120)
+        bc = big_cases(ctx, 120 if ctx.tier == "quick" else 2000)
+        p = ctx.write_cases("large-magnitude", bc)
+        ctx.run_cases("large-magnitude", bc, p, swcio.execute, "Judge_SwcIO", keyfn, nontrivial, per_case_timeout=60)
     finally:
         swcio.cleanup()
     ctx.notes["spec_level_round_trip"] = "ASSUME in Gen_SwcIO: Read(WrittenFile(t)) = (RTRows(t), RTBodies(t)) on every generated case (checked by TLC)"
     ctx.assumptions += ["a user comment that is itself the column header line is not generated (the reader drops the writer's header by its text)",
                         "enumerated coordinates are multiples of 10^-5 away from rounding ties (|v| < 64, where float32 is finer than 10^-5); free-running cases "
                         "carry arbitrary float32 values with |v| < 2*10^4 and their exact decimal expansion (sign, floor(|v|*10^5), exactness) computed with Fraction",
+                        "magnitudes from 3*10^4 to the largest float32 are judged with base-10^8 limb arithmetic in the specification (Round4Big, checked against Round4 where both apply): "
+                        "the written token must denote the value rounded half-even to four decimals and the value read back must be the original float32 (whose spacing exceeds 10^-4 there)",
                         "comments are compared leading blanks aside, as the statement says"]
     return ctx.finish(rule=RULE)
 
